@@ -185,7 +185,7 @@ func (m *Models) Req() *ReqModel {
 // freshOwnerArg: the call passes a not-yet-shared object whose own mutex is class cls.
 func (rm *ReqModel) freshOwnerArg(c ssa.CallInstruction, cls int) bool {
 	for _, a := range c.Common().Args {
-		if !isFresh(a) {
+		if !isFresh(a) && !freshEverywhere(rm.m.p, a, 0) {
 			continue
 		}
 		st, ok := deref(a.Type()).Underlying().(*types.Struct)
